@@ -340,14 +340,46 @@ def check_accessor_counters(idx: Index, rep: Report) -> None:
         r.ok(f.fq, f"{f.loc} counter incremented iff isinstance(arg_def, VariadicDef)")
     else:
         r.fail(f.fq, Finding("C10.R5", f.fq, "variadic-counter", f"`variadics_encountered += 1` runs under {facts}; optional segments (a VariadicDef subclass) must be counted too, otherwise accessors after an optional segment start at the wrong offset", f"{OPS}:{incs[0].lineno}"))
-    # accessor arithmetic reads the same fields in both accessor kinds
-    a = unparse(idx.func(OPS, "SameVariadicAccessor.index").node)
-    b = unparse(idx.func(OPS, "SameVariadicSingleAccessor.index").node)
-    core = "variadic_diff = (len(args) - self.num_defs) // self.num_variadics\n    start = self.idx + self.variadics_encountered * variadic_diff"
-    if core in a and core in b and "end = start + 1 + variadic_diff" in a:
-        r.ok("accessor-arithmetic", "both same-size accessors compute start = idx + encountered * diff")
+    # accessor arithmetic: both accessor kinds compute  start = idx + encountered * diff,  diff = (len(args) - num_defs) // num_variadics;
+    # the variadic one returns args[start : start + 1 + diff].  Compared as polynomials over the path-resolved expression.
+    from ..paths import enum_paths
+    from ..polyform import canon as pcanon
+
+    def subscripts(q: str):
+        fi = idx.func(OPS, q)
+        argn = fi.node.args.args[1].arg
+        outs = []
+        for pth in enum_paths(fi.node):
+            if pth.end != "return" or pth.value is None:
+                continue
+            e_ = ast.parse(pth.rvalue(), mode="eval").body
+            if not (isinstance(e_, ast.Subscript) and unparse(e_.value) == argn):
+                raise AnalysisError(f"{fi.fq}: returned value `{unparse(e_)[:60]}` is not an element / slice of `{argn}`")
+            outs.append((e_.slice, argn))
+        if not outs:
+            raise AnalysisError(f"{fi.fq}: no returned subscript")
+        return fi, outs
+
+    def want(argn: str):
+        diff = f"((len({argn}) - self.num_defs) // self.num_variadics)"
+        start = f"self.idx + self.variadics_encountered * {diff}"
+        return pcanon(start), pcanon(f"{start} + 1 + {diff}")
+
+    problems = []
+    fa, sa = subscripts("SameVariadicAccessor.index")
+    for sl, argn in sa:
+        ws, we = want(argn)
+        if not (isinstance(sl, ast.Slice) and sl.lower is not None and sl.upper is not None and sl.step is None and pcanon(sl.lower) == ws and pcanon(sl.upper) == we):
+            problems.append(f"SameVariadicAccessor.index returns {argn}[{unparse(sl)}]; expected [start : start + 1 + diff] with start = {ws}")
+    fb, sb = subscripts("SameVariadicSingleAccessor.index")
+    for sl, argn in sb:
+        ws, _ = want(argn)
+        if isinstance(sl, ast.Slice) or pcanon(sl) != ws:
+            problems.append(f"SameVariadicSingleAccessor.index returns {argn}[{unparse(sl)}]; expected the element at start = {ws}")
+    if not problems:
+        r.ok("accessor-arithmetic", "both same-size accessors compute start = idx + encountered * diff (polynomial normal form of the returned subscript)")
     else:
-        r.fail("accessor-arithmetic", Finding("C10.R5", "xdsl.irdl.operations.SameVariadicAccessor.index", "accessor-arithmetic", "the two same-size accessors no longer compute the segment start identically", OPS))
+        r.fail("accessor-arithmetic", Finding("C10.R5", "xdsl.irdl.operations.SameVariadicAccessor.index", "accessor-arithmetic", "the same-size accessors do not select their segment: " + "; ".join(problems), OPS))
 
 
 def check_var_binding(idx: Index, rep: Report, rule_id: str = "C10.R6") -> None:
